@@ -195,6 +195,10 @@ func runC08(w *World) {
 					// values of several sizes around the buffer sizes a write path may care about
 					sz := []int{3000, 9000, 11000, 20000, 70000}[r.Intn(5)]
 					c = Cmd{Args: []string{"SET", pick(r, g.keys), pick(r, g.freeIDs), "STRING", fmt.Sprintf("v%d-", g.uniq()) + strings.Repeat("x", sz)}}
+				case 8:
+					// objects that expire while the writers run: the sweeper appends its deletes to the
+					// same buffer the writers' commands wait in
+					c = Cmd{Args: []string{"SET", pick(r, g.keys), pick(r, g.freeIDs), "EX", []string{"0.1", "0.2", "0.4"}[r.Intn(3)], "POINT", g.lat(r), g.lon(r)}}
 				default:
 					c = Cmd{Args: []string{"SET", pick(r, g.keys), pick(r, g.freeIDs), "POINT", g.lat(r), g.lon(r)}}
 				}
